@@ -525,8 +525,14 @@ impl<const BITS: usize, const LIMBS: usize> TryFrom<f64> for Uint<BITS, LIMBS> {
         // All non-normal cases should have been handled above
         assert!(value.is_normal());
 
-        // Add offset to round to nearest integer.
-        let value = value + 0.5;
+        // Add offset to round to nearest integer. Values of 2^52 and above are
+        // already integers; there `value + 0.5` is not representable and would
+        // round to the even neighbour, changing odd integers.
+        let value = if value >= 4_503_599_627_370_496.0 {
+            value
+        } else {
+            value + 0.5
+        };
 
         // Parse IEEE-754 double
         // Sign should be zero, exponent should be >= 0.
